@@ -300,9 +300,9 @@ func TestVerifC09SealedRoutes(t *testing.T) {
 // ------------------------------------------------------------ (b) injection attempts
 
 type c09InjectCase struct {
-	Pass  string `json:"pass"`  // right prefix suffix case empty random trailing-space trailing-nl leading-space nul
-	TLS   string `json:"tls"`   // none | nochain | admincert
-	Field string `json:"field"` // form | query | missing
+	Pass    string `json:"pass"`  // right prefix suffix case empty random trailing-space trailing-nl leading-space nul
+	TLS     string `json:"tls"`   // none | nochain | admincert
+	Field   string `json:"field"` // form | query | missing
 	Variant string `json:"variant"`
 }
 
@@ -463,9 +463,9 @@ func TestVerifC09Injection(t *testing.T) {
 		"rapid: passphrase kind (right, prefix, suffix, case, empty, random, trailing space/newline, leading space, NUL suffix, doubled) x transport (no TLS, TLS without verified chain, operator client certificate) x field (form, query, missing) on a freshly sealed state; every case is non-trivial; distinct = the triple",
 		func(t *rapid.T) c09InjectCase {
 			return c09InjectCase{
-				Pass:  rapid.SampledFrom([]string{"right", "right", "prefix", "suffix", "case", "empty", "random", "trailing-space", "trailing-nl", "leading-space", "nul", "doubled"}).Draw(t, "pass"),
-				TLS:   rapid.SampledFrom([]string{"none", "nochain", "admincert", "admincert", "admincert"}).Draw(t, "tls"),
-				Field: rapid.SampledFrom([]string{"form", "form", "query", "missing"}).Draw(t, "field"),
+				Pass:    rapid.SampledFrom([]string{"right", "right", "prefix", "suffix", "case", "empty", "random", "trailing-space", "trailing-nl", "leading-space", "nul", "doubled"}).Draw(t, "pass"),
+				TLS:     rapid.SampledFrom([]string{"none", "nochain", "admincert", "admincert", "admincert"}).Draw(t, "tls"),
+				Field:   rapid.SampledFrom([]string{"form", "form", "query", "missing"}).Draw(t, "field"),
 				Variant: rapid.SampledFrom([]string{"rsa-preloaded", "ed-preloaded", "none-preloaded"}).Draw(t, "variant"),
 			}
 		}, c09CheckInject)
@@ -474,9 +474,9 @@ func TestVerifC09Injection(t *testing.T) {
 // ------------------------------------------------------------ (c) concurrent injections
 
 type c09ConcCase struct {
-	Right    int  `json:"right"`    // injections carrying the right passphrase
-	Wrong    int  `json:"wrong"`    // injections carrying a wrong one
-	Ordinary int  `json:"ordinary"` // ordinary requests interleaved
+	Right    int    `json:"right"`    // injections carrying the right passphrase
+	Wrong    int    `json:"wrong"`    // injections carrying a wrong one
+	Ordinary int    `json:"ordinary"` // ordinary requests interleaved
 	Variant  string `json:"variant"`
 }
 
